@@ -59,7 +59,14 @@ class Stable(Harness):
             return ()
         from ..core import zor, zand, ch_eq
         es = list(inp["x"]) if isinstance(inp["x"], str) else list(SymStr.of(inp["x"]).cs)
-        return (("D35", zor([zand([ch_eq(a, ";"), ch_eq(b, "=")]) for a, b in zip(es, es[1:])])),)
+        # ... and so does the closing quote of a quoted string followed (after optional white space) by '='
+        from ..core import ch_in, chars_to_ranges
+        q, ws = chars_to_ranges("\"';"), chars_to_ranges(" \t\n\r\v\f")
+        alts = []
+        for i in range(len(es)):
+            for j in range(i + 1, len(es)):
+                alts.append(zand([ch_in(es[i], q), ch_eq(es[j], "=")] + [ch_in(es[k], ws) for k in range(i + 1, j)]))
+        return (("D35", zor(alts)),)
 
     def text0(self, inp):
         t, x = self.template, inp["x"]
